@@ -156,10 +156,13 @@ impl LruPageCache {
         Ok(result_buffer)
     }
     
-    /// End offset of a request; rejects ranges whose end does not fit in u64.
+    /// End offset of a request; rejects ranges whose end does not fit in u64 or whose pages do not fit in PageId.
     fn checked_end(offset: u64, length: usize) -> Result<u64> {
         let end = offset.checked_add(length as u64)
             .ok_or_else(|| ZiporaError::invalid_data("offset + length overflows u64".to_string()))?;
+        if end.saturating_sub(1) / PAGE_SIZE as u64 > PageId::MAX as u64 {
+            return Err(ZiporaError::invalid_data("offset beyond the addressable page range".to_string()));
+        }
         Ok(end)
     }
 
